@@ -700,7 +700,7 @@ def run_property(prop, tier):
 ASSUME = {
     "C01": ["the general path is the reference for the shortcut (sentence 3); the reference model sim/refurl.h is the reference for "
             "parse results (sentences 1-2): trusted, validated against the 3,617 WPT url cases and 2M generated inputs (0 differences on "
-            "the pinned tree); UTS #46 of non-ASCII / xn-- domains is delegated to ada::idna (property C06); origin and setters are not modelled",
+            "the pinned tree); UTS #46 of non-ASCII / xn-- domains is delegated to ada::idna (property C06); setters are not modelled",
             "inputs are valid UTF-8", "buggify sites decline only where callers already fall back (re-established on the WPT corpora in setup)"],
     "C08": ["inputs are valid UTF-8", "limit values above 3*size+2 are represented by 'unlimited' and 32 random values"],
     "C09": ["the library under no limit is the executable reference for 'behaves exactly as with no limit'",
